@@ -240,6 +240,9 @@ impl Prop for C10 {
         if g && sp && !ss {
             tags.push("seamunsafe".into());
         }
+        if g && sp && seam::seam_safe_cf(&from) && seam::seam_safe_cf(&to) {
+            tags.push("seamsafe-cf".into());
+        }
         if kf1 && ss {
             tags.push("seamsafe-kf1".into());
         } else if kf1 {
